@@ -33,6 +33,9 @@ FastYMD(o) == LET y == YearOf(o)
 
 Rejected  == <<"exc", "ValueError">>
 Undefined == <<"undefined">>
+\* a call the API accepts but the property statement does not pin (a yyyymmdd number / an ordinal with a fraction of a day):
+\* its own outcome is not judged; it only appears in sessions, BEFORE judged calls (a call has no memory)
+Unpinned  == <<"unpinned">>
 Ok(o, s, u) == <<"ok", o, s, u>>
 \* tuples of different kinds are never compared component-wise (TLC would not compare a string with a number)
 SameOutcome(x, z) == x[1] = z[1] /\ Len(x) = Len(z) /\ x = z
@@ -47,6 +50,20 @@ At(y, m, d, h, mi, s, us) ==
 Pad4(g) == [i \in 1..4 |-> IF i <= Len(g) THEN g[i] ELSE 0]
 AtT(y, m, d, g) == LET p == Pad4(g) IN At(y, m, d, p[1], p[2], p[3], p[4])
 
+(* The decimals of the seconds.  A string may write the fraction of the second with any number k *)
+(* of decimals: the integer n written with k digits after the point means n / 10^k seconds       *)
+(* (".5" = ".500" = ".500000" = half a second).  Six decimals is the microsecond of the datetime *)
+(* (written as a plain 7th field); with more than six the extra digits have to be zeros to stay  *)
+(* inside the property's domain ("to the microsecond").                                          *)
+Pow10(k) == CASE k = 0 -> 1 [] k = 1 -> 10 [] k = 2 -> 100 [] k = 3 -> 1000 [] k = 4 -> 10000 [] k = 5 -> 100000
+              [] k = 6 -> 1000000 [] k = 7 -> 10000000 [] k = 8 -> 100000000 [] k = 9 -> 1000000000
+FracDigits == {1, 2, 3, 4, 5, 7, 8, 9}
+FracDefined(n, k) == k \in 1..9 /\ n >= 0 /\ (k < 9 => n < Pow10(k)) /\ (k > 6 => n % Pow10(k - 6) = 0)
+FracUs(n, k) == IF k <= 6 THEN n * Pow10(6 - k) ELSE n \div Pow10(k - 6)
+\* the written time of day of a string: positions 4.. of f; h mi | h mi s | h mi s us | h mi s n k (n written with k decimals)
+StrTimeOk(f) == Len(f) \in {3, 5, 6, 7} \/ (Len(f) = 8 /\ FracDefined(f[7], f[8]))
+StrTime(f)   == IF Len(f) = 8 THEN <<f[4], f[5], f[6], FracUs(f[7], f[8])>> ELSE SubSeq(f, 4, Len(f))
+
 -----------------------------------------------------------------------------
 (* The forms.  f is what is written:                                                             *)
 (*   datetime, pd_timestamp, pd_ns, np_us, dt2str   y m d h mi s us     (objects: all 7 fields)  *)
@@ -56,8 +73,9 @@ AtT(y, m, d, g) == LET p == Pad4(g) IN At(y, m, d, p[1], p[2], p[3], p[4])
 (*   parts           dt(y, m, d) or dt(y, m, d, h, mi, s)                                        *)
 (*   yyyymmdd_int, yyyymmdd_str                     one number, decimal digits yyyymmdd          *)
 (*   ordinal_int                                    one number, the proleptic ordinal            *)
-(*   iso_str, monthname_str                         y m d [h mi s [us]]  (month by number/name)  *)
-(*   numeric_str     a b y [h mi s [us]]: two numbers and a four-digit year, read                *)
+(*   iso_str, monthname_str                         y m d [h mi [s [us | n k]]]  (month by number/name; *)
+(*                   n k = the decimals of the seconds: the integer n written with k digits)     *)
+(*   numeric_str     a b y [h mi [s [us | n k]]]: two numbers and a four-digit year, read        *)
 (*                   day-month-year by the UK dialect and month-day-year by the US dialect       *)
 (*   dt2str          the string dt2str() makes of the datetime (round trip)                      *)
 SevenForms  == {"datetime", "pd_timestamp", "pd_ns", "np_us", "dt2str"}
@@ -65,6 +83,8 @@ NsForms     == {"pd_ns", "np_ns"}          \* numpy / pandas cannot spell instan
 Forms       == SevenForms \cup {"date", "np_D", "np_h", "np_m", "np_s", "pd_s", "np_ms", "np_ns", "parts",
                                 "yyyymmdd_int", "yyyymmdd_str", "ordinal_int", "iso_str", "monthname_str", "numeric_str"}
 Dialects    == {"uk", "us"}
+\* numbers with a fraction of a day, f = <<number, numerator, denominator>>: accepted by dt(), not pinned by the statement
+NoiseForms  == {"yyyymmdd_frac", "ordinal_frac"}
 
 Denote(form, f, dl) ==
     LET n == Len(f) IN
@@ -81,12 +101,17 @@ Denote(form, f, dl) ==
       [] form \in {"yyyymmdd_int", "yyyymmdd_str"} ->
             IF n = 1 /\ f[1] > 0 THEN AtT(f[1] \div 10000, (f[1] \div 100) % 100, f[1] % 100, <<>>) ELSE Undefined
       [] form = "ordinal_int" -> IF n = 1 /\ f[1] \in FirstDay..LastDay THEN Ok(f[1], 0, 0) ELSE Undefined
-      [] form \in {"iso_str", "monthname_str"} -> IF n \in {3, 6, 7} THEN AtT(f[1], f[2], f[3], SubSeq(f, 4, n)) ELSE Undefined
+      [] form \in {"iso_str", "monthname_str"} -> IF StrTimeOk(f) THEN AtT(f[1], f[2], f[3], StrTime(f)) ELSE Undefined
+      [] form = "yyyymmdd_frac" ->
+            IF n = 3 /\ f[1] > 0 /\ f[2] \in 1..(f[3] - 1) /\ f[3] \in {2, 4, 8}
+               /\ AtT(f[1] \div 10000, (f[1] \div 100) % 100, f[1] % 100, <<>>)[1] = "ok" THEN Unpinned ELSE Undefined
+      [] form = "ordinal_frac" ->
+            IF n = 3 /\ f[1] \in FirstDay..LastDay /\ f[2] \in 1..(f[3] - 1) /\ f[3] \in {2, 4, 8} THEN Unpinned ELSE Undefined
       [] form = "numeric_str" ->
-            IF n \notin {3, 6, 7} THEN Undefined ELSE
+            IF ~StrTimeOk(f) THEN Undefined ELSE
             LET day == IF dl = "uk" THEN f[1] ELSE f[2]
                 mon == IF dl = "uk" THEN f[2] ELSE f[1]
-                g   == SubSeq(f, 4, n) IN
+                g   == StrTime(f) IN
             \* the cross-dialect rule: what stands where this dialect expects the month cannot be a month,
             \* while the string is a date of the other dialect: rejected, never silently swapped
             IF mon > 12 /\ day <= 12 THEN (IF AtT(f[3], day, mon, g)[1] = "ok" THEN Rejected ELSE Undefined)
@@ -99,18 +124,24 @@ Expected(op, form, f, dl) == IF op = "ymd" THEN DropTime(Denote(form, f, dl)) EL
 
 -----------------------------------------------------------------------------
 (* Spelling an instant.  t = <<h, mi, s, us>>;  tl says how much of the time of day is written:  *)
-(* 0 nothing, 1 hour, 2 minute, 3 second, 4 microsecond, 5 millisecond.  wr is the convention of *)
-(* the writer of a numeric string: "dmy" (a UK writer) or "mdy" (a US writer).                   *)
+(* 0 nothing, 1 hour, 2 minute, 3 second, 4 microsecond, 5 millisecond, 10 + k: the seconds with *)
+(* k decimals (strings only).  wr is the convention of the writer of a numeric string: "dmy" (a  *)
+(* UK writer) or "mdy" (a US writer).                                                            *)
 Trunc(t, tl) == CASE tl = 0 -> <<0, 0, 0, 0>>
                   [] tl = 1 -> <<t[1], 0, 0, 0>>
                   [] tl = 2 -> <<t[1], t[2], 0, 0>>
                   [] tl = 3 -> <<t[1], t[2], t[3], 0>>
                   [] tl = 4 -> t
                   [] tl = 5 -> <<t[1], t[2], t[3], t[4] - (t[4] % 1000)>>
+                  [] tl > 10 -> IF tl < 16 THEN <<t[1], t[2], t[3], t[4] - (t[4] % Pow10(16 - tl))>> ELSE t
 TimeTail(w, tl) == CASE tl = 0 -> <<>>
+                     [] tl = 2 -> <<w[1], w[2]>>
                      [] tl = 3 -> <<w[1], w[2], w[3]>>
                      [] tl = 4 -> w
-Tls(form) == CASE form \in SevenForms \cup {"iso_str", "monthname_str", "numeric_str", "np_ns"} -> {0, 3, 4}
+                     [] tl > 10 -> <<w[1], w[2], w[3], IF tl <= 16 THEN w[4] \div Pow10(16 - tl) ELSE w[4] * Pow10(tl - 16), tl - 10>>
+FracTls == {10 + k : k \in FracDigits}
+Tls(form) == CASE form \in {"iso_str", "monthname_str", "numeric_str"} -> {0, 2, 3, 4} \cup FracTls
+               [] form \in SevenForms \cup {"np_ns"} -> {0, 3, 4}
                [] form = "parts" -> {0, 3}
                [] form = "np_h" -> {1}
                [] form = "np_m" -> {2}
